@@ -177,6 +177,9 @@ func writeEvidence(ps *PropSpec, tier string, seed int, results []*harnessResult
 	}
 	b, _ := json.MarshalIndent(ev, "", " ")
 	dir := filepath.Join(verifRoot, "evidence")
+	if d := os.Getenv("VERIF_EVIDENCE_DIR"); d != "" {
+		dir = d // seeded-change runs must not overwrite the evidence of the unchanged tree
+	}
 	os.MkdirAll(dir, 0o755)
 	if err := os.WriteFile(filepath.Join(dir, ps.ID+".json"), b, 0o644); err != nil {
 		fmt.Fprintln(os.Stderr, "evidence:", err)
